@@ -25,6 +25,11 @@ def _variants(tier):
                 for aff in ((1, 0), (-4, 3)) if dt != "int64" else ((1, 0),):
                     # value = (v + off) * 2**sh  (sh = 1 -> v, sh = -4 -> v/4 ... exact dyadic maps)
                     vs.append("%s|%s|%s|%d|%d" % (fn, dt, cont, aff[0], aff[1]))
+    # knots of a coarser type than the queries: integer knots k (the grid halved), queries on the half-integers as float64 / longdouble
+    for fn in ("scalar", "vec"):
+        for qdt in ("float64", "longdouble"):
+            vs.append("%s|int64>%s|array|-1|0" % (fn, qdt))
+    vs.append("scalar|int64>float64|list|-1|0")
     return vs
 
 
@@ -43,15 +48,16 @@ def observe_lookup(gen, variants):
     for var in variants:
         fn, dt, cont, sh, off = var.split("|")
         sh, off = int(sh), int(off)
-        dt = np.dtype(dt)
+        qdt = np.dtype(dt.split(">")[1]) if ">" in dt else np.dtype(dt)
+        dt = np.dtype(dt.split(">")[0])
         for a in gen["arrays"]:
             arr = np.array([_map(x, sh, off, dt) for x in a], dtype=dt)
-            qv = [_map(q, sh, off, dt) for q in qs]
+            qv = [_map(q, sh, off, qdt) for q in qs]
             if fn == "scalar":
                 arg = arr if cont == "array" else [np.asarray(x) for x in arr]
                 res = [int(deutil.search_bisection(arg, q)) for q in qv]
             else:
-                out = deutil.search_bisection_vec(arr, np.array(qv, dtype=dt))
+                out = deutil.search_bisection_vec(arr, np.array(qv, dtype=qdt))
                 res = [int(x) for x in out]
             cases.append({"id": cid, "variant": var, "a": list(a), "qs": list(qs), "res": res})
             cid += 1
